@@ -1,6 +1,6 @@
 //! C20 — standalone head parsers round-trip well-formed heads and honour their limits.
 use crate::core::{Property, Rec, Tier, Workload};
-use crate::drive::{observe_response, same_fields, RespObs, METHODS};
+use crate::drive::{fmt_fields, observe_response, same_fields, RespObs, METHODS};
 use crate::json::esc_short;
 use crate::model::*;
 use crate::rng::Rng;
@@ -221,6 +221,67 @@ fn method_token_case(idx: u64, rec: &mut Rec) {
     }
 }
 
+/// The parsers are functions of their input. Whatever was parsed before - another head in the very same
+/// buffer, an abandoned incomplete head, another limit - the answer for THIS input is the same.
+fn history_case(idx: u64, rec: &mut Rec) {
+    // (a) one buffer reused for two different response heads of equal length
+    let a = b"HTTP/1.1 302 Found\r\nLocation: /aaaa\r\nX-A: 1\r\nConnection: keep-alive\r\n\r\n".to_vec();
+    let b = b"HTTP/1.1 301 Moved\r\nLocation: /bbbb\r\nX-B: 2\r\nConnection: keep-alive\r\n\r\n".to_vec();
+    assert_eq!(a.len(), b.len());
+    let p = 20 + (idx as usize % (a.len() - 21)); // a strict prefix length
+    let mut buf = a.clone();
+    rec.call();
+    let first = full_resp(128, &buf[..p]);
+    if !matches!(first, Ok(None)) {
+        return rec.fail("C20/response-complete-on-prefix", format!("prefix {} of {}: {:?}", p, a.len(), first.map(|o| o.map(|v| v.0))));
+    }
+    buf.copy_from_slice(&b);
+    rec.call();
+    match part_resp(128, &buf[..p]) {
+        Ok(None) => {}
+        Ok(Some(obs)) => {
+            let prefix = &b[..p];
+            if obs.status != 301 || obs.headers.iter().any(|(n, v)| !contains_line(prefix, n, v)) {
+                return rec.fail(
+                    "C20/partial-reports-unknown-field",
+                    format!("the same buffer held another head before: partial parse of {:?} reports status {} fields {:?}", esc_short(prefix, 90), obs.status, fmt_fields(&obs.headers)),
+                );
+            }
+            rec.cov("history/reused-buffer");
+        }
+        Err(e) => return rec.fail("C20/partial-error-on-prefix", format!("{:?}", e)),
+    }
+    // (b) an abandoned incomplete request head of k bytes, then a complete one that ends before byte k
+    let k = 30 + (idx as usize % 60);
+    let long: Vec<u8> = format!("GET /{} HTTP/1.1\r\nX-Long: {}", "p".repeat(40), "v".repeat(80)).into_bytes();
+    rec.call();
+    let r0 = full_req(4, &long[..k.min(long.len())]);
+    if !matches!(r0, Ok(None)) {
+        return rec.fail("C20/request-complete-on-prefix", format!("{:?}", r0.map(|o| o.map(|v| v.0))));
+    }
+    let short = b"PUT /s HTTP/1.1\r\nHost: h\r\n\r\n";
+    let mut second = short.to_vec();
+    second.extend_from_slice(&vec![b'b'; 120]); // body bytes behind the head, no empty line among them
+    rec.call();
+    match full_req(4, &second) {
+        Ok(Some((n, m, _, f))) if n == short.len() && m == "PUT" && f.len() == 1 => rec.cov("history/after-an-abandoned-request"),
+        other => rec.fail(
+            "C20/request-complete-head-not-parsed",
+            format!("after an abandoned incomplete head of {} bytes, a complete head of {} bytes followed by body bytes: {:?}", k, short.len(), other.map(|o| o.map(|v| (v.0, v.1)))),
+        ),
+    }
+}
+
+fn contains_line(prefix: &[u8], name: &str, value: &[u8]) -> bool {
+    // the field's line (name, colon, value, CRLF) lies completely inside the prefix
+    let lower: Vec<u8> = prefix.to_ascii_lowercase();
+    let mut line = name.to_ascii_lowercase().into_bytes();
+    line.extend_from_slice(b": ");
+    line.extend_from_slice(&value.to_ascii_lowercase());
+    line.extend_from_slice(b"\r\n");
+    lower.windows(line.len()).any(|w| w == &line[..])
+}
+
 fn request_case(rng: &mut Rng, all: bool, rec: &mut Rec) {
     let lane = crate::core::lane_mode();
     let limit = if lane { *rng.pick(&[0usize, 1, 4]) } else { *rng.pick(&LIMITS) };
@@ -304,13 +365,16 @@ impl Property for P {
         vec![
             Workload::new("responses", tier.pick(3_000, 400_000), false, "response heads x prefixes, complete + partial parser"),
             Workload::new("requests", tier.pick(3_000, 400_000), false, "request heads x prefixes"),
+            Workload::new("history", 240, true, "what was parsed before must not matter: one buffer reused for two heads of equal length; a complete request head after an abandoned longer incomplete one"),
             Workload::new("method-tokens", (TCHARS.len() * 4) as u64, true, "every token character in a method name, in four positions"),
         ]
     }
     fn run_case(&self, wl: &str, idx: u64, seed: u64, rec: &mut Rec) {
         let mut rng = Rng::derive(seed, wl, idx);
         let all = idx % 4 == 0;
-        if wl == "method-tokens" {
+        if wl == "history" {
+            history_case(idx, rec)
+        } else if wl == "method-tokens" {
             method_token_case(idx, rec)
         } else if wl == "responses" {
             response_case(&mut rng, all, rec)
